@@ -240,6 +240,9 @@ func (level Level) ShortTag(length int) string {
 }
 
 func (level *Level) UnmarshalJSON(text []byte) error {
+	if n := len(text); n >= 2 && text[0] == '"' && text[n-1] == '"' {
+		text = text[1 : n-1] // MarshalJSON writes the name as a JSON string
+	}
 	return level.UnmarshalText(text)
 }
 
